@@ -22,16 +22,43 @@ const (
 	KBytes // an array value / a pure byte list (Lean Bytes); N = static length or -1
 	KStruct
 	KList // a Go slice of uint16 / int64 elements, as the list of its len(…) elements (capacity is not observable through [:0], append, element assignment)
+	KI8   // Go int8 (Lean Int8: two's complement, wrapping, arithmetic shift right)
+	KI16  // Go int16 (Lean Int16)
+	KI32  // Go int32 / rune (Lean Int32)
+	KEnum // a value of an interface type known to be one of finitely many named functions (closed sum)
 )
 
 type Val struct {
-	S    string
-	K    Kind
-	N    int          // static length (KBytes arrays, slices with constant bounds), -1 = unknown
-	Prop bool         // KBool given as a decidable Prop
-	T    *types.Named // KStruct
-	E    Kind         // KList: element kind (KU16 or KInt)
+	S       string
+	K       Kind
+	N       int          // static length (KBytes arrays, slices with constant bounds), -1 = unknown
+	Prop    bool         // KBool given as a decidable Prop
+	T       *types.Named // KStruct (and KList of structs: the element type)
+	E       Kind         // KList: element kind
+	En      *enumInfo    // KEnum
+	IsConst bool         // a value the translator knows to be the constant Const although it is not a Go constant
+	Const   int64
+	Al      *storedAlias // KSlice obtained as base[lo:hi] of a variable: its base and upper bound
 }
+
+// leanType: the Lean type of a value
+func (v Val) leanType() string {
+	switch v.K {
+	case KList:
+		if v.E == KStruct {
+			return "List " + leanTypeName(v.T)
+		}
+		return "List " + leanKindType(v.E)
+	case KStruct:
+		return leanTypeName(v.T)
+	case KEnum:
+		return v.En.name
+	}
+	return leanKindType(v.K)
+}
+
+// sameType: two values have the same Lean type
+func sameType(a, b Val) bool { return a.K == b.K && a.leanType() == b.leanType() }
 
 // fn is the state of the translation of one Go function into one Lean definition
 type fn struct {
@@ -49,7 +76,37 @@ type fn struct {
 	ind      int    // indentation of the statement being translated
 	results  []Kind // kinds of the results before the error
 	inJoin   int
-	pure     bool // translating a pure helper (no monad)
+	pure     bool          // translating a pure helper (no monad)
+	noRecv   bool          // a function without a receiver structure (no running `r`)
+	fuel     bool          // the definition is in the monad RF (it contains, or calls something that contains, a loop with fuel)
+	params   *extParams    // external calls turned into parameters (top-level definitions only)
+	resT     []Val         // result templates (types) before the error
+	aliases  []storedAlias // byte slices stored into receiver fields (for in-place mutation of the backing array)
+}
+
+// needFuel is thrown when a definition translated in the monad R turns out to need RF
+type needFuel struct{}
+
+// M: the name of the monad of the definition being translated
+func (f *fn) M() string {
+	if f.fuel {
+		return "RF"
+	}
+	return "R"
+}
+
+// lift: an R-valued term used in a bind of the current monad
+func (f *fn) lift(term string) string {
+	if f.fuel {
+		return "RF.lift (" + term + ")"
+	}
+	return term
+}
+
+func (f *fn) requireFuel() {
+	if !f.fuel {
+		panic(needFuel{})
+	}
 }
 
 func (g *gen) newFn(src funcSrc, recv *types.Named) *fn {
@@ -141,9 +198,17 @@ func (f *fn) kindOfType(t types.Type) (Kind, int, bool) {
 			return KBool, -1, true
 		case types.Int, types.Int64, types.UntypedInt:
 			return KInt, -1, true
+		case types.Int8:
+			return KI8, -1, true
+		case types.Int16:
+			return KI16, -1, true
+		case types.Int32, types.UntypedRune:
+			return KI32, -1, true
+		case types.String, types.UntypedString:
+			return KBytes, -1, true
 		}
 	case *types.Slice:
-		if isByte(u.Elem()) {
+		if isPlainByte(u.Elem()) {
 			return KSlice, -1, true
 		}
 	case *types.Array:
@@ -172,8 +237,27 @@ func leanKindType(k Kind) string {
 		return "GoSlice"
 	case KBytes:
 		return "Bytes"
+	case KI8:
+		return "Int8"
+	case KI16:
+		return "Int16"
+	case KI32:
+		return "Int32"
 	}
 	return "?"
+}
+
+// swidth: width of the signed fixed-width kinds
+func swidth(k Kind) int {
+	switch k {
+	case KI8:
+		return 8
+	case KI16:
+		return 16
+	case KI32:
+		return 32
+	}
+	return 0
 }
 
 func width(k Kind) int {
@@ -193,6 +277,16 @@ func (f *fn) constVal(e ast.Expr, tv types.TypeAndValue) Val {
 	switch tv.Value.Kind() {
 	case constant.Bool:
 		return Val{S: fmt.Sprintf("%v", constant.BoolVal(tv.Value)), K: KBool, N: -1}
+	case constant.String:
+		bs := []byte(constant.StringVal(tv.Value))
+		if len(bs) == 0 {
+			return Val{S: "([] : Bytes)", K: KBytes, N: 0}
+		}
+		var els []string
+		for _, b := range bs {
+			els = append(els, fmt.Sprintf("%d", b))
+		}
+		return Val{S: "([" + strings.Join(els, ", ") + "] : Bytes)", K: KBytes, N: len(bs)}
 	case constant.Int:
 		k, _, ok := f.kindOfType(tv.Type)
 		if !ok {
@@ -220,6 +314,9 @@ func (f *fn) asInt(v Val) string {
 	return v.S
 }
 
+// boolProp: v as something usable after `if`
+func boolProp(v Val) string { return v.S }
+
 // boolTerm: v as a Bool-typed term
 func boolTerm(v Val) string {
 	if v.Prop {
@@ -244,7 +341,7 @@ func (f *fn) natIndex(e ast.Expr) (string, int) {
 		return fmt.Sprintf("(%s).toNat", v.S), c
 	case KInt:
 		t := f.tmp()
-		f.w("let %s ← GoDec.nat %s", t, paren(v.S))
+		f.w("let %s ← %s", t, f.lift(fmt.Sprintf("GoDec.nat %s", paren(v.S))))
 		return t, c
 	}
 	f.fail(e, "index of unsupported kind")
@@ -355,6 +452,9 @@ func (f *fn) expr(e ast.Expr) Val {
 		if v, ok := f.vars[obj]; ok {
 			return v
 		}
+		if pv, ok := obj.(*types.Var); ok && pv.Parent() == pv.Pkg().Scope() {
+			return f.g.tableVar(f, e, pv)
+		}
 		f.fail(e, "identifier %s", x.Name)
 	case *ast.SelectorExpr:
 		if path, ok := f.fieldPath(x); ok && len(path) > 0 {
@@ -366,7 +466,8 @@ func (f *fn) expr(e ast.Expr) Val {
 			}
 			if k, n, ok := f.kindOfType(t); ok {
 				if k == KSlice {
-					f.fail(e, "read of the slice field %s (its capacity is not modelled)", path[len(path)-1].Name())
+					// a []byte field is kept as the bytes it denotes: usable where only they matter (its capacity is not modelled)
+					return Val{S: s, K: KBytes, N: -1}
 				}
 				return Val{S: s, K: k, N: n}
 			}
@@ -380,6 +481,15 @@ func (f *fn) expr(e ast.Expr) Val {
 			}
 			f.fail(e, "read of field of type %s", t)
 		}
+		if root, path, ok := f.localFieldPath(x); ok && len(path) > 0 {
+			rv := f.vars[root]
+			lp := f.leanPathFrom(x, rv.T, path)
+			t := path[len(path)-1].Type()
+			if k, n, ok := f.kindOfType(t); ok && k != KSlice {
+				return Val{S: rv.S + "." + strings.Join(lp, "."), K: k, N: n}
+			}
+			f.fail(e, "read of field of type %s of a local structure", t)
+		}
 		f.fail(e, "selector expression %s", types.ExprString(e))
 	case *ast.IndexExpr:
 		base := f.expr(x.X)
@@ -387,14 +497,26 @@ func (f *fn) expr(e ast.Expr) Val {
 		case KSlice:
 			i, _ := f.natIndex(x.Index)
 			t := f.tmp()
-			f.w("let %s ← %s.idx %s", t, base.S, paren(i))
+			f.w("let %s ← %s", t, f.lift(fmt.Sprintf("%s.idx %s", base.S, paren(i))))
 			return Val{S: t, K: KU8, N: -1}
 		case KBytes:
 			i, c := f.natIndex(x.Index)
+			if _, isArr := f.info.TypeOf(x.X).Underlying().(*types.Array); !isArr {
+				f.fail(e, "index into a byte string that is not an array")
+			}
 			if base.N < 0 || c < 0 || c >= base.N {
 				f.fail(e, "array index that is not a constant within the array")
 			}
 			return Val{S: fmt.Sprintf("(%s.getD %s 0)", paren(base.S), i), K: KU8, N: -1}
+		case KList:
+			// a package-level array or a slice given as the list of its elements: an index beyond the length is a panic
+			if base.E == KStruct {
+				f.fail(e, "index into a list of structures")
+			}
+			i, _ := f.natIndex(x.Index)
+			t := f.tmp()
+			f.w("let %s ← %s", t, f.lift(fmt.Sprintf("GoDec.listIdx %s %s", paren(base.S), paren(i))))
+			return Val{S: t, K: base.E, N: -1}
 		}
 		f.fail(e, "index into a value of unsupported kind")
 	case *ast.SliceExpr:
@@ -406,8 +528,10 @@ func (f *fn) expr(e ast.Expr) Val {
 			return Val{S: fmt.Sprintf("(!%s)", paren(boolTerm(v))), K: KBool, N: -1}
 		case x.Op == token.XOR && width(v.K) > 0:
 			return Val{S: fmt.Sprintf("(~~~%s)", paren(v.S)), K: v.K, N: -1}
-		case x.Op == token.SUB && width(v.K) > 0:
+		case x.Op == token.SUB && (width(v.K) > 0 || swidth(v.K) > 0):
 			return Val{S: fmt.Sprintf("(0 - %s)", paren(v.S)), K: v.K, N: -1}
+		case x.Op == token.XOR && swidth(v.K) > 0:
+			return Val{S: fmt.Sprintf("(~~~%s)", paren(v.S)), K: v.K, N: -1}
 		case x.Op == token.SUB && (v.K == KInt || v.K == KNat):
 			return Val{S: fmt.Sprintf("(-%s)", paren(f.asInt(v))), K: KInt, N: -1}
 		}
@@ -451,23 +575,30 @@ func (f *fn) sliceExpr(x *ast.SliceExpr) Val {
 	if x.Low == nil && x.High == nil {
 		return base
 	}
+	var baseObj types.Object
+	if id, ok := x.X.(*ast.Ident); ok {
+		baseObj = f.info.Uses[id]
+		if base.Al != nil && base.Al.base != nil {
+			baseObj = nil // a slice of a slice: provenance not tracked
+		}
+	}
 	t := f.tmp()
 	if x.High == nil {
 		lo, _ := f.natIndex(x.Low)
-		f.w("let %s ← %s.sliceFrom %s", t, base.S, paren(lo))
-		return Val{S: t, K: KSlice, N: -1}
+		f.w("let %s ← %s", t, f.lift(fmt.Sprintf("%s.sliceFrom %s", base.S, paren(lo))))
+		return Val{S: t, K: KSlice, N: -1, Al: &storedAlias{baseObj, ""}}
 	}
 	lo, lc := "0", 0
 	if x.Low != nil {
 		lo, lc = f.natIndex(x.Low)
 	}
 	hi, hc := f.natIndex(x.High)
-	f.w("let %s ← %s.slice %s %s", t, base.S, paren(lo), paren(hi))
+	f.w("let %s ← %s", t, f.lift(fmt.Sprintf("%s.slice %s %s", base.S, paren(lo), paren(hi))))
 	n := -1
 	if lc >= 0 && hc >= lc {
 		n = hc - lc
 	}
-	return Val{S: t, K: KSlice, N: n}
+	return Val{S: t, K: KSlice, N: n, Al: &storedAlias{baseObj, hi}}
 }
 
 var binOps = map[token.Token]string{token.AND: "&&&", token.OR: "|||", token.XOR: "^^^", token.ADD: "+", token.SUB: "-", token.MUL: "*",
@@ -477,12 +608,38 @@ func (f *fn) binary(x *ast.BinaryExpr) Val {
 	if x.Op == token.LAND || x.Op == token.LOR {
 		a := f.expr(x.X)
 		before := len(f.lines)
+		saved := f.lines
+		f.lines = nil
+		savedInd := f.ind
+		f.ind = savedInd + 1
 		b := f.expr(x.Y)
-		if len(f.lines) != before {
-			f.fail(x, "index or slice expression under a short-circuit operator")
-		}
+		rhsLines := f.lines
+		f.lines = saved
+		f.ind = savedInd
+		_ = before
 		if a.K != KBool || b.K != KBool {
 			f.fail(x, "logical operator on non-booleans")
+		}
+		if len(rhsLines) > 0 {
+			// the right operand indexes or slices: it is evaluated only when the left one does not decide the result
+			if f.pure {
+				f.fail(x, "index or slice expression under a short-circuit operator")
+			}
+			t := f.tmp()
+			if x.Op == token.LAND {
+				f.w("let %s ← (if %s then (do", t, boolProp(a))
+			} else {
+				f.w("let %s ← (if !(%s) then (do", t, paren(boolTerm(a)))
+			}
+			f.lines = append(f.lines, rhsLines...)
+			f.ind++
+			if x.Op == token.LAND {
+				f.w("pure %s) else pure false)", paren(boolTerm(b)))
+			} else {
+				f.w("pure %s) else pure true)", paren(boolTerm(b)))
+			}
+			f.ind--
+			return Val{S: t, K: KBool, N: -1}
 		}
 		op := "&&"
 		if x.Op == token.LOR {
@@ -493,11 +650,33 @@ func (f *fn) binary(x *ast.BinaryExpr) Val {
 	if x.Op == token.SHL || x.Op == token.SHR {
 		a := f.expr(x.X)
 		tv := f.info.Types[x.Y]
-		if tv.Value == nil || width(a.K) == 0 {
-			f.fail(x, "shift with a non-constant count or of a non-fixed-width value")
+		w := width(a.K) + swidth(a.K)
+		if w == 0 {
+			f.fail(x, "shift of a non-fixed-width value")
+		}
+		if tv.Value == nil {
+			// a variable count: Go gives 0 for counts at or above the width (unsigned operand)
+			cnt := f.expr(x.Y)
+			var cs string
+			switch {
+			case width(cnt.K) > 0:
+				cs = fmt.Sprintf("(%s).toNat", cnt.S)
+			case cnt.K == KNat:
+				cs = paren(cnt.S)
+			default:
+				f.fail(x, "shift count that may be negative")
+			}
+			if width(a.K) == 0 {
+				f.fail(x, "shift of a signed value by a variable count")
+			}
+			name := "shl"
+			if x.Op == token.SHR {
+				name = "shr"
+			}
+			return Val{S: fmt.Sprintf("(GoDec.%s%d %s %s)", name, w, paren(a.S), cs), K: a.K, N: -1}
 		}
 		n, ok := constant.Int64Val(tv.Value)
-		if !ok || n < 0 || int(n) >= width(a.K) {
+		if !ok || n < 0 || int(n) >= w {
 			f.fail(x, "shift count not below the width")
 		}
 		op := "<<<"
@@ -508,7 +687,11 @@ func (f *fn) binary(x *ast.BinaryExpr) Val {
 	}
 	a := f.expr(x.X)
 	b := f.expr(x.Y)
-	return f.binop(x, x.Op, a, b, f.info.Types[x.Y])
+	ytv := f.info.Types[x.Y]
+	if ytv.Value == nil && b.IsConst {
+		ytv.Value = constant.MakeInt64(b.Const)
+	}
+	return f.binop(x, x.Op, a, b, ytv)
 }
 
 func (f *fn) binop(n ast.Node, op token.Token, a, b Val, ytv types.TypeAndValue) Val {
@@ -523,8 +706,13 @@ func (f *fn) binop(n ast.Node, op token.Token, a, b Val, ytv types.TypeAndValue)
 		if op == token.REM {
 			lop = "%"
 		}
-		if a.K == KInt {
-			f.fail(n, "division of a possibly negative int")
+		if a.K == KInt && (b.K == KNat || b.K == KInt) {
+			// Go's / and % on ints truncate towards zero: Int.tdiv / Int.tmod
+			name := "Int.tdiv"
+			if op == token.REM {
+				name = "Int.tmod"
+			}
+			return Val{S: fmt.Sprintf("(%s %s %s)", name, paren(a.S), paren(f.asInt(b))), K: KInt, N: -1}
 		}
 	}
 	if !ok {
@@ -533,7 +721,10 @@ func (f *fn) binop(n ast.Node, op token.Token, a, b Val, ytv types.TypeAndValue)
 	switch {
 	case a.K == KBool && b.K == KBool && (op == token.EQL || op == token.NEQ):
 		return Val{S: fmt.Sprintf("(%s %s %s)", paren(boolTerm(a)), lop, paren(boolTerm(b))), K: KBool, N: -1}
-	case width(a.K) > 0 && a.K == b.K:
+	case (width(a.K) > 0 || swidth(a.K) > 0) && a.K == b.K:
+		if swidth(a.K) > 0 && (op == token.QUO || op == token.REM) {
+			f.fail(n, "division of a signed fixed-width value")
+		}
 		if cmp {
 			if op == token.EQL || op == token.NEQ {
 				return Val{S: fmt.Sprintf("(%s %s %s)", paren(a.S), lop, paren(b.S)), K: KBool, N: -1}
@@ -570,6 +761,10 @@ func (f *fn) compositeLit(x *ast.CompositeLit) Val {
 	t := f.info.TypeOf(x)
 	switch u := t.Underlying().(type) {
 	case *types.Array, *types.Slice:
+		if nt, ok := listOfStructs(t); ok && len(x.Elts) == 0 {
+			f.g.useField(nt, "")
+			return Val{S: fmt.Sprintf("([] : List %s)", leanTypeName(nt)), K: KList, E: KStruct, T: nt, N: -1}
+		}
 		var elem types.Type
 		n := -1
 		if a, ok := u.(*types.Array); ok {
@@ -613,19 +808,65 @@ func (f *fn) compositeLit(x *ast.CompositeLit) Val {
 	return Val{}
 }
 
-// listElem: t is a slice of uint16-like or int64-like elements
+// listElem: t is a slice whose elements are values of a fixed-width / int kind (not a Go []byte: that is a GoSlice)
 func listElem(t types.Type) (Kind, bool) {
 	sl, ok := t.Underlying().(*types.Slice)
-	if !ok {
+	if !ok || isPlainByte(sl.Elem()) {
 		return 0, false
 	}
 	if b, ok := sl.Elem().Underlying().(*types.Basic); ok {
 		switch b.Kind() {
+		case types.Uint8:
+			return KU8, true
 		case types.Uint16:
 			return KU16, true
+		case types.Uint32:
+			return KU32, true
+		case types.Int32:
+			return KI32, true
 		case types.Int64, types.Int:
 			return KInt, true
 		}
 	}
 	return 0, false
+}
+
+// listOfStructs: t is a slice of a named structure type without reference fields
+func listOfStructs(t types.Type) (*types.Named, bool) {
+	sl, ok := t.Underlying().(*types.Slice)
+	if !ok {
+		return nil, false
+	}
+	n, ok := sl.Elem().(*types.Named)
+	if !ok || !plainStruct(n) {
+		return nil, false
+	}
+	return n, true
+}
+
+// plainStruct: a structure all of whose fields (recursively) are fixed-width integers, booleans or such structures:
+// copying it copies everything (no aliasing through slices, maps, pointers or interfaces)
+func plainStruct(n *types.Named) bool {
+	st, ok := n.Underlying().(*types.Struct)
+	if !ok {
+		return false
+	}
+	for i := 0; i < st.NumFields(); i++ {
+		switch u := st.Field(i).Type().Underlying().(type) {
+		case *types.Basic:
+			switch u.Kind() {
+			case types.Uint8, types.Uint16, types.Uint32, types.Bool, types.Int8, types.Int16, types.Int32:
+			default:
+				return false
+			}
+		case *types.Struct:
+			fn, ok := st.Field(i).Type().(*types.Named)
+			if !ok || !plainStruct(fn) {
+				return false
+			}
+		default:
+			return false
+		}
+	}
+	return true
 }
